@@ -8,6 +8,12 @@
 (*   Hasher = "Fixed"  : utils::DeterministicState - the order does not    *)
 (*                       depend on the seed                                *)
 (*   Hasher = "Seeded" : std RandomState - it does                         *)
+(* seed[p] stands for everything AMBIENT in a process that is not the      *)
+(* derive input: the hash seed, but equally the environment variables      *)
+(* (RUSTC_BOOTSTRAP, RUSTUP_TOOLCHAIN, locale, time zone), the working     *)
+(* directory, heap addresses, and the byte offsets of the item in its      *)
+(* source file; "Seeded" is any dependence on it.  The replay varies all   *)
+(* of these between the processes it compares.                             *)
 (* `global` models state shared between expansions of one process (the     *)
 (* implementation has none: NextGlobal is the identity when Stateless).    *)
 (* Expand(p, i) appends to the history of p and records the output.        *)
